@@ -526,6 +526,19 @@ Section Ledger.
     | None => exec_tx bno s t
     end.
 
+  (** what one offer does to the verified account of the POOLED object.  [mode] 2 = current code (F52): executeTx
+      never removes it, it is compared at every offer; 1 = after F51 only: removed once the comparison succeeded;
+      0 = original code: removed before comparing *)
+  Definition va_after_offer (mode : N) (va : option N) (s : lstate) (t : tx) : option N :=
+    match va with
+    | Some a => if (mode =? 2)%N then va
+                else if (mode =? 1)%N && negb (a =? resolve s (t_from t))%N then va else None
+    | None => None
+    end.
+  (** the verified account left after the tx has been offered at each state of [ss] in turn *)
+  Fixpoint va_after (mode : N) (va : option N) (t : tx) (ss : list lstate) : option N :=
+    match ss with [] => va | s :: tl => va_after mode (va_after_offer mode va s t) t tl end.
+
   (** blockExecutor.execute on the commit-only path (block delivered WITH a block state: block factory, raft):
       no re-execution; validatePost compares the header's state root with the supplied state's root *)
   Definition commit_only (root_of : lstate -> N) (hdr_root : N) (supplied s : lstate) : lstate :=
